@@ -193,6 +193,63 @@ static void block_case(uint64_t nn, unsigned rep) {
   case_end(nblk >= 1);
 }
 
+// the a*a product is a sum of ell products of 32-bit words, i.e. a 77-bit integer per prime; its low 64-bit word is made to land
+// next to a wrap: after ell - 2 random terms the last two terms (x1 = 2^32 - 1 with a solved y1, x2 = 1 with the remainder) put the
+// exact sum's low word at 2^64 - 1, 2^64 - 2^j, 0 or 1, in every lane at once. An accumulator that folds its high and low words
+// with one addition too few bits wide is wrong exactly there; uniformly random terms reach such sums once in 2^20 .. 2^40 lanes.
+static void baa_sum_boundary_case(uint64_t ell, unsigned kind, unsigned rep) {
+  if (!case_begin("q120_vec_mat1col_product_baa|exact sum with its low word next to a wrap", "ell=%" PRIu64 " kind=%u rep=%u", ell, kind, rep)) return;
+  rng_t* r = crng();
+  gbuf_t gx, gy;
+  uint64_t* x = gb_alloc(&gx, ell * 32, 8, 8 * (rep % 8), 4096);
+  uint64_t* y = gb_alloc(&gy, ell * 32, 8, 8 * ((rep + 3) % 8), 4096);
+  for (uint64_t i = 0; i < 4 * ell; i++) {
+    x[i] = rng_u64(r) >> 32;
+    y[i] = rng_u64(r) >> 32;
+  }
+  for (int k = 0; k < 4; k++) {
+    u128 S = 0;
+    for (uint64_t i = 0; i + 2 < ell; i++) S += (u128)x[4 * i + k] * y[4 * i + k];
+    uint64_t target;
+    switch (kind % 5) {
+      case 0: target = ~0ull; break;
+      case 1: target = 0; break;
+      case 2: target = 1; break;
+      case 3: target = ~0ull - (((uint64_t)1 << (rng_u64(r) % 45)) - 1); break;  // 2^64 - 2^j
+      default: target = ~0ull - (rng_u64(r) >> 24); break;                        // within 2^40 below the wrap
+    }
+    uint64_t R = target - (uint64_t)S;  // what the last two products must add to the low word (mod 2^64)
+    const uint64_t M = 0xFFFFFFFFull;
+    uint64_t y1 = R / M;
+    if (y1 > M) y1 = M;
+    const uint64_t rest = R - y1 * M;  // < 2^32 - 1 unless y1 was clamped
+    x[4 * (ell - 2) + k] = M;
+    y[4 * (ell - 2) + k] = y1;
+    x[4 * (ell - 1) + k] = rest > M ? M : 1;
+    y[4 * (ell - 1) + k] = rest > M ? rest / M : rest;
+  }
+  q120_mat1col_product_baa_precomp* P = q120_new_vec_mat1col_product_baa_precomp();
+  uint64_t lanes = 0;
+  for (int avx2 = 0; avx2 <= 1; avx2++) {
+    uint64_t res[4];
+    (avx2 ? q120_vec_mat1col_product_baa_avx2 : q120_vec_mat1col_product_baa_ref)(P, ell, (q120b*)res, (q120a*)x, (q120a*)y);
+    for (int k = 0; k < 4; k++) {
+      const uint64_t q = Q120[k];
+      uint64_t acc = 0;
+      for (uint64_t i = 0; i < ell; i++) acc = (acc + (uint64_t)(((u128)(x[4 * i + k] % q) * (y[4 * i + k] % q)) % q)) % q;
+      if (res[k] % q != acc) viol("oracle", "q120_vec_mat1col_product_baa_%s: ell=%" PRIu64 ", lane of prime %d: %" PRIu64 " is not congruent to the exact sum (%" PRIu64 "), whose low 64-bit word was placed next to a wrap (kind %u)", avx2 ? "avx2" : "ref", ell, k, res[k], acc, kind % 5);
+      lanes++;
+    }
+  }
+  q120_delete_vec_mat1col_product_baa_precomp(P);
+  cnt("product_lanes_checked", lanes);
+  cnt("sum_boundary_products", 2);
+  sample("ell=%" PRIu64 ": both kernels congruent to the exact sum placed at the wrap of its low word", ell);
+  gb_free(&gx);
+  gb_free(&gy);
+  case_end(1);
+}
+
 void run_C10(void) {
   const int th = G.thorough;
   for (unsigned rep = 0; rep < (th ? 40u : 4u); rep++) {
@@ -318,4 +375,10 @@ void run_C10(void) {
   // several threads creating, using and destroying their own modules / tables at the same time
   for (unsigned rep = 0; rep < (G.thorough ? 60u : 8u); rep++)
     ops_concurrent_lifecycle_case("C10 objects", LKM_BBC | LKM_BAA | LKM_BBB, (rep % 4) == 3 ? DISP_GENERIC : DISP_NATIVE, rep & 1 ? 8 : 4, 120, rep, "concurrent_lifecycle_uses");
+  {
+    static const uint64_t BE[] = {2, 3, 17, 100, 1000, 4000, 9999, 10000};
+    for (size_t e = 0; e < ARRAY_LEN(BE); e++)
+      for (unsigned kind = 0; kind < 5; kind++)
+        for (unsigned rep = 0; rep < (G.thorough ? 40u : 4u); rep++) baa_sum_boundary_case(BE[e], kind, rep);
+  }
 }
